@@ -265,7 +265,8 @@ def site_key(rec, xsl=None, mode="single"):
         return "after-bad@" + "<".join(norm_frames(sig, 2))
     if oc == "terminate":
         if dtor != "-":
-            return "terminate@%s|%s" % (norm_frames(sig, 1)[0], dtor.split("<")[-1])
+            # inside a destructor: the innermost destructor frame names the site
+            return "terminate@|" + dtor.split("<")[-1]
         return "terminate@" + "<".join(norm_frames(sig, 2))
     if oc == "swallowed":
         return "swallowed:%s@%s" % (rec.get("out"), "document()" if (xsl and uses_document(xsl)) else "<".join(norm_frames(sig, 2)))
@@ -276,6 +277,13 @@ def site_key(rec, xsl=None, mode="single"):
 
 def handler_key(hs):
     return "handler@" + "<".join(norm_frames(hs[6:], 2))
+
+
+def handler_known(hs, sites):
+    """an allocation made inside a catch handler is in the census when one of its frames is a function of the
+    census (`handlerfn@<name>` lines: the error-message formatting called from XalanTransformer's handlers)"""
+    fns = set(k[len("handlerfn@"):] for k in sites if k.startswith("handlerfn@"))
+    return any(f in fns for f in hs[6:].split("<"))
 
 
 def load_sites():
@@ -348,9 +356,8 @@ def check(ctx, known, widen=False, exe=None):
             new.append({"case": replay_line(scenario, xsl, xml, "count", 0), "what": "unexpected API status %s" % c.get("status")})
         for hs in c.get("handler_sigs", []):
             if hs.startswith("catch:"):
-                key = handler_key(hs)
-                if key not in sites:
-                    handler_new.add(key)
+                if not handler_known(hs, sites):
+                    handler_new.add(handler_key(hs))
         ks = ks_of(c["N"])
         recs = sweep(exe_, scenario, xsl, xml, ks, mode=mode, env=env)
         children += len(recs)
